@@ -8,7 +8,7 @@ From Coq Require Import List ZArith Bool Lia.
 Import ListNotations.
 From Goat Require Import Base.Bytes Model.WireFormat Model.Transports.
 From Goat Require Import Proofs.WireFormatProofs Proofs.TransportsProofs Proofs.TransportsWireProofs.
-From Goat Require Import Model.HttpLink Proofs.HttpLinkProofs Proofs.WireFuel.
+From Goat Require Import Model.HttpLink Proofs.HttpLinkProofs Proofs.WireFuel Model.WsFrag Proofs.WsFragProofs.
 Open Scope Z_scope.
 
 (* ---------- the wire format ---------- *)
@@ -241,6 +241,38 @@ Theorem C19_http_never_400_on_envelope : forall rt iv tmo now ls (s : hst rpc by
   ~ In (HEvResp q 400) (hs_log s).
 Proof. exact http_never_400_on_envelope. Qed.
 Print Assumptions C19_http_never_400_on_envelope.
+
+(* ---------- WebSocket below the frame: whole or nothing (Model/WsFrag.v) ---------- *)
+(* Writes put their frame on the connection fragment by fragment, serialised by the connection's write lock; a Write may
+   block mid-frame (the wire takes no more) and may give up there (context, closed connection), leaving a partial frame.
+   Over all label sequences: the Writes whose envelope a Read returned ([freads], in return order) are a prefix of the
+   Writes that put the LAST fragment of their frame on the wire ([lasts], in lock = write order): every envelope returned
+   was written whole by exactly one Write, which returned nil; in write order; each once; the frame of a Write that did
+   not finish is never returned *)
+Theorem C19_ws_whole_or_nothing : forall (E : Type) room ls (s : fstate E), f_run room ls = Some s ->
+  (exists rest, lasts (f_log s) = freads (f_log s) ++ rest) /\
+  NoDup (freads (f_log s)) /\
+  (forall w, In w (freads (f_log s)) -> exists x, nth_error (f_ws s) w = Some x /\ fw_st x = FDone true) /\
+  (forall w x, nth_error (f_ws s) w = Some x -> fw_st x <> FDone true -> ~ In w (freads (f_log s))).
+Proof. exact @ws_whole_or_nothing. Qed.
+Print Assumptions C19_ws_whole_or_nothing.
+
+(* ... and a pending Read waits only on an empty, open wire: a partial frame is consumed, never returned; on a closed
+   connection the Read fails (Q form) *)
+Theorem C19_ws_partial_waits : forall (E : Type) (s : fstate E),
+  quiescent f_rules s -> f_rd s = true -> f_wire s = [] /\ f_closed s = false.
+Proof. exact @ws_partial_waits. Qed.
+Print Assumptions C19_ws_partial_waits.
+
+(* the rules fire: Write 0 (3 fragments) is parked after 2, Write 1 waits for the lock; room is made, a Read takes the
+   whole frame of Write 0; Write 1 sends one fragment, its context ends mid-frame: partial frame, connection closed; the
+   next Read consumes the fragment and fails *)
+Definition ex_frag : option (fstate Z) :=
+  f_run 2 [LExt (FWrite 7 2); LInt 1; LInt 2; LInt 2; LExt (FWrite 8 2); LExt (FRoom 2); LInt 2; LExt FRead; LInt 0; LInt 0; LInt 0;
+           LInt 5; LInt 6; LExt (FCancel 1); LInt 7; LExt FRead; LInt 0; LInt 0].
+Example C19_ex_frag : exists s, ex_frag = Some s /\ freads (f_log s) = [0%nat] /\ lasts (f_log s) = [0%nat] /\
+  map fw_st (f_ws s) = [FDone true; FDone false] /\ f_closed s = true /\ In FEvReadErr (f_log s).
+Proof. eexists. split; [vm_compute; reflexivity|]. vm_compute. repeat split. auto 10. Qed.
 
 (* ---------- the decoder's fuel is always enough ---------- *)
 (* [fields] gives [fields_fuel] the length of the input as fuel: any larger fuel gives the same answer, so the out-of-fuel
